@@ -81,6 +81,19 @@ fn environment_stage(ctx: &Ctx, prop: &str, rep: &mut Report) {
     for (k, v) in profile {
         cmd.env(k, v);
     }
+    // ... and every variable that is NOT set is answered as if it were, whatever its name: an LD_PRELOAD monitor
+    // (harness/shim/envspy.c) sits on getenv/secure_getenv, logs each distinct name the process consults and answers
+    // unset, unprotected names with a truthy value. Code that keys on the presence of some variable of its own is
+    // then exercised without the harness having to guess the name; the oracles judge the output as always.
+    let spy = ctx.root.join("harness/shim/envspy.so");
+    let spy_log = evdir.join("envspy.log");
+    const ANSWERS: [&str; 5] = ["1", "true", "yes", "trace", "2"];
+    let answer = ANSWERS[(ctx.seed as usize / 7 + prop.len() + which) % ANSWERS.len()];
+    if spy.is_file() {
+        cmd.env("LD_PRELOAD", &spy).env("ENVSPY_LOG", &spy_log).env("ENVSPY_ANSWER", answer).env("ENVSPY_CLOCK", "1").env("ENVSPY_TTY", "1");
+    } else {
+        rep.stats.inconclusive(format!("environment stage: {} is missing (run ./setup.sh)", spy.display()));
+    }
     cmd.env("VCHECK_STAGE_CHILD", "environment").env("VERIF_THIN", "3").env("VERIF_SEED", format!("{}", (ctx.seed ^ 0xe57a6e) as i128)).env("VERIF_EVIDENCE_DIR", &evdir).stdin(Stdio::null());
     let out = match cmd.output() {
         Ok(o) => o,
@@ -91,6 +104,25 @@ fn environment_stage(ctx: &Ctx, prop: &str, rep: &mut Report) {
         }
     };
     let stdout = String::from_utf8_lossy(&out.stdout).to_string();
+    // what the process asked the environment for (names only; the harness's own and the runtime's are listed apart)
+    let spied = std::fs::read_to_string(&spy_log).unwrap_or_default();
+    let own = |n: &str| ["ENVSPY_", "VERIF_", "VCHECK_", "IOFAULT_", "RUST_", "CARGO", "LD_", "MALLOC_", "GLIBC_", "LLVM_"].iter().any(|p| n.starts_with(p));
+    let mut consulted_set: Vec<String> = Vec::new();
+    let mut answered: Vec<String> = Vec::new();
+    let mut harness_names = 0u64;
+    for l in spied.lines() {
+        let (tag, name) = l.split_once(' ').unwrap_or(("", l));
+        if own(name) {
+            harness_names += 1;
+        } else if tag == "set" {
+            consulted_set.push(name.to_string());
+        } else {
+            answered.push(name.to_string());
+        }
+    }
+    if spy.is_file() && harness_names == 0 {
+        rep.stats.inconclusive("environment stage: the getenv monitor logged nothing (not even the harness's own variables): it was not loaded".to_string());
+    }
     let mut violations = 0u64;
     for line in stdout.lines() {
         if let Some(rest) = line.strip_prefix("VIOLATION ") {
@@ -102,8 +134,8 @@ fn environment_stage(ctx: &Ctx, prop: &str, rep: &mut Report) {
             rep.stats.violations.push(crate::stats::Violation {
                 property: prop.to_string(),
                 kind: format!("hostile-environment:{kind}"),
-                detail: format!("{detail} (observed only in a process whose environment was cleared and set to profile {which}: {})", profile.iter().map(|(k, v)| format!("{k}={v}")).collect::<Vec<_>>().join(" ")),
-                job: json!({"environment_profile": which, "inner": job, "child_replay": replay}),
+                detail: format!("{detail} (observed only in a process whose environment was cleared and set to profile {which}: {}; variables the process consulted that were not set and were answered {answer:?} by the getenv monitor: {:?}; consulted and set: {:?})", profile.iter().map(|(k, v)| format!("{k}={v}")).collect::<Vec<_>>().join(" "), answered, consulted_set),
+                job: json!({"environment_profile": which, "answered_unset_variables": answered, "answer": answer, "inner": job, "child_replay": replay}),
             });
             rep.stats.count("violations_total", 1);
             violations += 1;
@@ -124,6 +156,8 @@ fn environment_stage(ctx: &Ctx, prop: &str, rep: &mut Report) {
         "stage_environment".into(),
         json!({
             "what": "same monitors, every third job of the quick workload, in a child process whose working directory contains files named like the relative image references of the workloads and whose environment was cleared and filled with a profile of commonly consulted variables (terminal colours and capabilities, locale, time zone, directories, verbosity, CI / reproducible-build markers, thread-pool sizes)",
+            "getenv_monitor": {"what": "LD_PRELOAD hook on getenv/secure_getenv in the same child: every distinct name consulted is logged; names that are not set (and are not the harness's, the Rust runtime's or the loader's) are answered with a truthy value; the wall clock jumps a day ahead at every reading and isatty(0..2) says yes (pseudo names <wall-clock>, <isatty> appear below when consulted)", "answer": answer,
+                "names_consulted_by_harness_or_runtime": harness_names, "other_names_consulted_and_set": consulted_set, "other_names_consulted_unset_and_answered": answered},
             "profile": which, "variables_set": profile.len(), "evaluations": evals, "violations": violations, "wall_s": (t0.elapsed().as_secs_f64() * 10.0).round() / 10.0,
         }),
     ));
